@@ -90,8 +90,10 @@ pub fn alphabet(cfg: &Config) -> Alpha {
     let f2 = vec![b2, b2 + 0x20_0000, (1u64 << 52) - 0x20_0000];
     let b1 = up(end, 0x4000_0000);
     let f1 = vec![b1, b1 + 0x4000_0000, (1u64 << 52) - 0x4000_0000];
-    let leaf_flags = vec![P | W, P, P | W | U | 0x100 | 0x200 | (1 << 63), P | HUGE /* = PAT bit on a 4 KiB leaf; only used for 4 KiB */];
-    let parent_flags = vec![P | W, P, P | W | U];
+    // indices 0..LEAF_IN_DOMAIN / 0..PARENT_IN_DOMAIN are the quantified domain; the last element of each list lacks PRESENT
+    // (outside the quantified domain; explored as a deviation with a reduced, representation-level oracle)
+    let leaf_flags = vec![P | W, P, P | W | U | 0x100 | 0x200 | (1 << 63), P | HUGE /* = PAT bit on a 4 KiB leaf; only used for 4 KiB */, W];
+    let parent_flags = vec![P | W, P, P | W | U, W];
     // identity map: lower-half alphabet pages whose address is also a valid physical address
     let mut ident = Vec::new();
     for sz in [2u8, 1, 0] {
@@ -174,6 +176,10 @@ pub enum Act {
 }
 /// allocator failure schedules: 0 never, 1/2/3 fail the k-th request of the call, 4 all
 pub const SCHEDS: u8 = 5;
+pub const LEAF_IN_DOMAIN: u8 = 4;
+pub const PARENT_IN_DOMAIN: u8 = 3;
+pub const LEAF_OOD: u8 = 4;
+pub const PARENT_OOD: u8 = 3;
 
 pub fn actions(al: &Alpha) -> Vec<(Act, u8)> {
     let mut v: Vec<(Act, u8)> = Vec::new();
@@ -190,11 +196,11 @@ pub fn actions(al: &Alpha) -> Vec<(Act, u8)> {
         for f in 1..al.frames[sz as usize].len() as u8 {
             v.push((Act::Map { page: pi, frame: f, flags: 0, parent: 0, sched: 0 }, 1));
         }
-        let nfl = if sz == 0 { al.leaf_flags.len() } else { al.leaf_flags.len() - 1 } as u8;
+        let nfl = if sz == 0 { LEAF_IN_DOMAIN } else { LEAF_IN_DOMAIN - 1 };
         for f in 1..nfl {
             v.push((Act::Map { page: pi, frame: 0, flags: f, parent: 0, sched: 0 }, 1));
         }
-        for p in 1..al.parent_flags.len() as u8 {
+        for p in 1..PARENT_IN_DOMAIN {
             v.push((Act::Map { page: pi, frame: 0, flags: 0, parent: p, sched: 0 }, 1));
         }
         v.push((Act::Map { page: pi, frame: 0, flags: 2, parent: 255, sched: 0 }, 1)); // map_to: parent flags derived from the leaf flags
@@ -206,6 +212,11 @@ pub fn actions(al: &Alpha) -> Vec<(Act, u8)> {
         v.push((Act::Update { page: pi, flags: 2 }, 1));
         for level in [4u8, 3, 2] {
             v.push((Act::SetP { level, page: pi, flags: 1 }, 1));
+        }
+        // outside the quantified domain: flags without PRESENT
+        v.push((Act::Update { page: pi, flags: LEAF_OOD }, 1));
+        for level in [4u8, 3, 2] {
+            v.push((Act::SetP { level, page: pi, flags: PARENT_OOD }, 1));
         }
     }
     for i in 0..al.ident.len() as u8 {
@@ -285,7 +296,7 @@ impl FrameDeallocator<Size4KiB> for Dealloc<'_> {
                 if !s.is_zero(f) {
                     self.problems.push(format!("deallocated table frame {} that still holds an entry", f));
                 }
-                let t = walk_all(s, self.skip_slot);
+                let t = walk_all_mode(s, self.skip_slot, true);
                 if t.tables.values().any(|&x| x as usize == f) {
                     self.problems.push(format!("deallocated table frame {} before unlinking it from its parent", f));
                 }
@@ -443,6 +454,10 @@ fn do_sized<S: PageSize, M: Mapper<S>>(m: &mut M, act: &Act, al: &Alpha, page_va
         }
         _ => unreachable!(),
     }
+}
+
+pub fn is_ood_action(act: &Act) -> bool {
+    matches!(act, Act::Update { flags, .. } if *flags == LEAF_OOD) || matches!(act, Act::SetP { flags, .. } if *flags == PARENT_OOD)
 }
 
 /// page (size, start) an action works on
